@@ -11,9 +11,10 @@ def one(seed):
     from sa.loader import Tree
     tmp = Path(tempfile.mkdtemp(prefix='vfmx-'))
     try:
-        shutil.copytree('/repo/src/experimaestro', tmp / 'src' / 'experimaestro', ignore=shutil.ignore_patterns('__pycache__', 'node_modules'))
-        r = subprocess.run(['patch', '-p1', '-s', '--no-backup-if-mismatch', '-i', f'/verif/seeded/{seed}/patch.diff'], cwd=tmp, capture_output=True, text=True)
-        if r.returncode:
+        from sa.seedbase import materialise, baseline_keys
+        meta = json.load(open(f'/verif/seeded/{seed}/meta.json'))
+        applied, base = materialise(f'/verif/seeded/{seed}/patch.diff', tmp, Path('/repo'), meta.get('base_commit'))
+        if not applied:
             return seed, None
         os.environ['VERIF_REPO'] = str(tmp)
         tree = Tree(tmp)
@@ -23,7 +24,16 @@ def one(seed):
             with contextlib.redirect_stdout(buf):
                 chk, code = run_check(pid, 'quick', 0, write=False, tree=tree, quiet=True)
             if code:
-                row[pid] = (code, sorted({f.rule for f in chk.findings}) or ['undecided'])
+                keys = {f"{f.rule} {f.key}" for f in chk.findings}
+                if base is not None:
+                    os.environ['VERIF_REPO'] = '/repo'
+                    keys -= baseline_keys(base, pid, Path('/repo'))
+                    os.environ['VERIF_REPO'] = str(tmp)
+                    if not keys and code == 1:
+                        continue
+                row[pid] = (code, sorted({k.split(' ')[0] for k in keys}) or ['undecided'])
+        if base is not None:
+            row['_base'] = (0, [base])
         return seed, row
     finally:
         shutil.rmtree(tmp, ignore_errors=True)
@@ -37,8 +47,10 @@ for s in seeds:
     own = json.load(open(f'/verif/seeded/{s}/meta.json'))['property']
     if row is None:
         print(s, 'PATCH DOES NOT APPLY'); continue
-    d = {k: v for k, v in row.items()}
+    d = {k: v for k, v in row.items() if k != '_base'}
+    if '_base' in row:
+        s = s  # (applied to the tree it was written for)
     flag = 'OK ' if own in d and d[own][0] == 1 else 'MISS'
-    print(flag, s, ' '.join(f"{k}{'!' if v[0]==2 else ''}[{','.join(r.split('.')[-1] for r in v[1])}]" for k, v in d.items()))
+    print(flag, s, ('(on ' + row['_base'][1][0] + ') ' if '_base' in row else '') + ' '.join(f"{k}{'!' if v[0]==2 else ''}[{','.join(r.split('.')[-1] for r in v[1])}]" for k, v in d.items()))
     out[s] = {k: {"exit": v[0], "rules": v[1]} for k, v in d.items()}
 json.dump(out, open('/verif/seeded/MATRIX.json', 'w'), indent=1)
